@@ -191,6 +191,7 @@ fn write_replay(dir: &str, rf: &ReplayFile) -> String {
 fn init() {
     sched::warm_up();
     common::install_panic_hook();
+    worlds::set_sched_hook_all(Some(sched::lib_hook));
 }
 
 fn cmd_run(a: &Args) -> i32 {
@@ -269,7 +270,13 @@ fn cmd_run(a: &Args) -> i32 {
                     minimised_ops: case_size(&fin),
                     case: fin,
                 };
-                let path = write_replay(&replay_dir, &rf);
+                let path = if ctx.miri() {
+                    // no file system under Miri's isolation: hand the replay file to the orchestrator
+                    println!("VIOLATION-CASE {}", serde_json::to_string(&rf).unwrap());
+                    format!("{}/{}-{}-seed{}-run{}.json", replay_dir, rf.property, rf.engine, rf.verif_seed, rf.run_index)
+                } else {
+                    write_replay(&replay_dir, &rf)
+                };
                 println!("VIOLATION property={} replay={}", ctx.prop, path);
                 println!("  class={} detail={}", v2.class, v2.detail);
                 stats.violations.push(format!("{} {} {}", path, v2.class, v2.detail));
